@@ -539,7 +539,7 @@ class SigmaDetections:
     ) -> Self:
         try:
             if isinstance(detections["condition"], list):
-                condition = detections["condition"]
+                condition = list(detections["condition"])  # own list: filters rewrite it in place
             else:
                 condition = [detections["condition"]]
         except KeyError:
